@@ -167,6 +167,19 @@ def run(ctx):
                 else:
                     why = f"axis expression `{U(axis_expr)}` is not i minus the number of axes already dropped"
     ctx.check(okax, "C11.a", "HistogramND.__getitem__:axis-bookkeeping", why, "chained selection addresses the wrong axis: " + why, ng.where)
+    # one implementation of a selection: __getitem__ installs no contents or binnings itself, every sub-index goes through select()
+    # (which validates it: negative steps, unknown index kinds)
+    own_writes = []
+    for n in ast.walk(ng.node):
+        tg = n.targets if isinstance(n, ast.Assign) else [n.target] if isinstance(n, (ast.AugAssign, ast.AnnAssign)) else []
+        for t_ in tg:
+            for x in ast.walk(t_):
+                if isinstance(x, ast.Attribute) and isinstance(x.ctx, ast.Store) and x.attr in ("_frequencies", "_errors2", "frequencies", "errors2", "_binnings", "_missed"):
+                    own_writes.append(U(n)[:70])
+                if isinstance(x, ast.Subscript) and isinstance(x.ctx, ast.Store) and isinstance(x.value, ast.Attribute) and x.value.attr in ("_binnings", "_frequencies", "_errors2"):
+                    own_writes.append(U(n)[:70])
+    ctx.check(not own_writes and bool(loops), "C11.a", "HistogramND.__getitem__:through-select", "no contents / binnings installed outside select()",
+              f"__getitem__ builds a selection itself ({own_writes[:2]}): the sub-indices then bypass select()'s validation and bookkeeping", ng.where)
 
     # ---- C11.b ------------------------------------------------------------------------------------------------------
     ctx.rule("C11.b", "contiguous slice: frequencies[:start] -> underflow iff start not in (None, 0); frequencies[stop:] -> overflow likewise; other selections NaN", 5)
